@@ -53,7 +53,7 @@ def main():
     finally:
         subprocess.run(["git", "-C", "/repo", "worktree", "remove", "--force", wt], capture_output=True)
         h = hashlib.sha1(wt.encode()).hexdigest()[:10]
-        shutil.rmtree(os.path.join("/tmp", ".verif-scratch-" + h), ignore_errors=True)
+        shutil.rmtree(os.path.join("/tmp", ".vsx-" + h), ignore_errors=True)
         # evidence files were rewritten by the run against the scratch tree: restore the committed ones
         subprocess.run(["git", "-C", V, "checkout", "--"] + [f"evidence/{p}.json" for p in props], capture_output=True)
     json.dump(res, open(os.path.join(d, "result.json"), "w"), indent=1, ensure_ascii=False)
